@@ -117,34 +117,41 @@ impl SRule
        bundle ("out" / "\ta" / "\tb"), the other documented way to list paths */
     pub fn render_style(&self, bundled : bool) -> String
     {
+        /* flat: one path per line.  bundled: paths below a directory are written as a nested,
+           tab-indented bundle ("out" / "\tdeep" / "\t\ter" / "\t\t\tx"); paths without '/' stay as they are */
         fn section(paths : &[String], bundled : bool, s : &mut String)
         {
-            let mut done : Vec<&String> = vec![];
-            for p in paths.iter()
+            if !bundled
             {
-                if done.contains(&p) { continue; }
-                match (bundled, p.find('/'))
+                for p in paths.iter() { s.push_str(p); s.push('\n'); }
+                return;
+            }
+            #[derive(Default)]
+            struct Node { children : std::collections::BTreeMap<String, Node>, order : Vec<String> }
+            fn insert(node : &mut Node, parts : &[&str])
+            {
+                if parts.len() == 0 { return; }
+                if !node.children.contains_key(parts[0]) { node.order.push(parts[0].to_string()); }
+                let child = node.children.entry(parts[0].to_string()).or_insert_with(Node::default);
+                insert(child, &parts[1..]);
+            }
+            fn emit(node : &Node, depth : usize, s : &mut String)
+            {
+                for name in node.order.iter()
                 {
-                    (true, Some(i)) =>
-                    {
-                        let dir = &p[..i];
-                        s.push_str(dir);
-                        s.push('\n');
-                        for q in paths.iter()
-                        {
-                            if q.starts_with(&format!("{}/", dir)) && !q[i + 1..].contains('/')
-                            {
-                                s.push('\t');
-                                s.push_str(&q[i + 1..]);
-                                s.push('\n');
-                                done.push(q);
-                            }
-                        }
-                        if !done.contains(&p) { s.push_str(p); s.push('\n'); done.push(p); }
-                    },
-                    _ => { s.push_str(p); s.push('\n'); done.push(p); },
+                    for _ in 0..depth { s.push('\t'); }
+                    s.push_str(name);
+                    s.push('\n');
+                    emit(&node.children[name], depth + 1, s);
                 }
             }
+            let mut root = Node::default();
+            for p in paths.iter()
+            {
+                let parts : Vec<&str> = p.split('/').collect();
+                insert(&mut root, &parts);
+            }
+            emit(&root, 0, s);
         }
         let mut s = String::new();
         section(&self.targets, bundled, &mut s);
